@@ -1076,3 +1076,21 @@ _note_add("C03", "*_call: the same scenarios with a method and call (arguments r
 _note_add("C02", "batch_* shapes: notification + request + failing request, single member, failing request first. no_answer_*: notifications, stray responses and odd objects. C06.shape_*: hostile shapes are answered with at most one error carrying the id.")
 _note_add("C11", "accept_errors: an attempt that failed for reasons of its own does not keep the connection queued behind it from being accepted (edge-triggered listener).")
 _note_add("C10", "writev3_step: the same step for a frame gathered from three chunks of different lengths.")
+
+# round 6: exactly the maximum of matchers; zlib parameter plumbing; salt alphabet; passwd after a failed authentication
+for _r, _nm, _op, _rch in ((20, "exactly_max_matchers", "a", ["matched"]), (20, "exactly_max_matchers", "z", ["not_matched"]), (21, "max_matchers_plus_option", "A", ["matched"])):
+    for _via in (0, 1):
+        O(id="C16.%srule_%s_%s" % ("get_" if _via else "", _nm, _op), props=["C16", "C06", "C02"], entry="harness_rule", reach=_rch,
+          defines=["RULE=%d" % _r, "OPCHAR='%s'" % _op] + (["VIA_GET=1"] if _via else []),
+          functions=["add_fetch_to_peer", "get_elements", "create_fetch", "add_matchers", "create_matcher", "state_matches", "free_fetch"],
+          symbolic="state value", assumes=["set-up add of 'ab' succeeds"],
+          bounds="skeleton: A add 'ab'; B %s with %s (CONFIG_MAX_NUMBERS_OF_MATCHERS_IN_FETCH = 3)" % ("get" if _via else "fetch", _nm.replace("_", " ")), **_scn_rule)
+O(id="C19.stream_parameters", props=["C19"], entry="harness_alloc_compression", reach=["both_streams"], unwind=4,
+  functions=["alloc_compression"], symbolic="compression level 1..3, negotiated client and server window bits 8..15, the return codes of inflateInit2 / deflateInit2",
+  assumes=[], bounds="none", **dict(_c19, stubs=_c19["stubs"] + ["inflateInit2_/deflateInit2_: record the window bits, any return code"]))
+O(id="C20.salt_alphabet", props=["C20"], entry="harness_fill_salt", reach=["long_salt"], functions=["fill_salt"],
+  symbolic="salt length 0..16, every byte the random source delivers", assumes=[], bounds="salts <= 16 characters (the longest crypt(3) salt)",
+  **dict(_scn_auth, unwindset=dict(_scn_auth["unwindset"], **{"fill_salt.0": 18, "harness_fill_salt.0": 21, "harness_fill_salt.1": 18, "cjet_get_random_bytes.0": 3})))
+for _c, _nm in ((9, "after_failed_authentication_as_the_target"), (10, "after_failed_authentication_as_admin"), (11, "after_failed_admin_claim_of_an_authenticated_user")):
+    O(id="C20.passwd_" + _nm, props=["C20", "C08", "C02"], entry="harness_passwd", defines=["PWCASE=%d" % _c], reach=["refused"], functions=_AF,
+      symbolic="(concrete requester/target)", assumes=["the failed authentication is answered with an error"], bounds="database of 10 users; %s" % _nm.replace("_", " "), **_scn_auth)
